@@ -6,10 +6,11 @@
   `eval(s, {}, LOCALS)`).  `parse_y0(str(e))` is `PyEval.parseY0 (Print.expr e)`.
 -/
 import Y0.Lemmas.PrintExpr
+import Y0.Lemmas.PrintEvalExpr
 
 namespace Y0
 namespace C12
-open Print PyParse
+open Print PyParse PyEval
 
 /-! ## 1. printing is unambiguous: the printed tokens, read with Python's operator precedence, have exactly the
 operator tree of the object -/
@@ -35,6 +36,32 @@ theorem parse_print_var (v : Var) (n : Nat) (rest : List Tok) (hn : 8 * (Print.v
     (hr : StopFrom 3 rest) : pBin n 3 (Print.var v ++ rest) = .ok (astVar v, rest) :=
   parses_var v n rest hn hr
 
+/-! ## 2. the object-equality clause: on the simple-division family parsing the printed form rebuilds the object
+
+`lt` is the order `Product.safe` sorts with (any order: the pinned `_get_key` `PyEval.exprLt`, or the total key
+`Expr.ltE` of Y0.Model.Dsl); `built lt e` are the invariants of objects reachable through the public builders when
+every distribution / subscript list / range / Q-(co)domain mentions a name at most once; `simple e` is "every
+division has division-free, non-constant operands and is not itself a factor of a product". -/
+
+/-- evaluating the object's own operator tree with the DSL operators gives back the object -/
+theorem eval_tree_eq (lt : Expr → Expr → Bool) (e : Expr) (hb : built lt e = true) (hs : simple e = true) :
+    PyEval.eval lt (astOf e) = .ok (.expr e) :=
+  eval_astOf lt e hb hs
+
+/-- **parse ∘ print = id** on the simple-division family: `parse_y0(str(e)) == e` -/
+theorem parse_print_eq (lt : Expr → Expr → Bool) (e : Expr) (hb : built lt e = true) (hs : simple e = true) :
+    PyEval.parseY0 lt (Print.expr e) = .ok e := by
+  unfold PyEval.parseY0 PyEval.evalExpr
+  rw [parse_print_ast e (wf_of_built lt e hb)]
+  simp only [eval_astOf lt e hb hs]
+
+/-- … and the parsed object prints to the same text -/
+theorem parse_print_same_text (lt : Expr → Expr → Bool) (e e' : Expr) (hb : built lt e = true) (hs : simple e = true)
+    (hp : PyEval.parseY0 lt (Print.expr e) = .ok e') : Print.expr e' = Print.expr e := by
+  rw [parse_print_eq lt e hb hs] at hp
+  cases hp
+  rfl
+
 /-! non-vacuity: a well-formed expression with a product denominator, a fraction factor, a level-2 probability and a
 counterfactual variable; its printed form and its tree -/
 
@@ -44,6 +71,18 @@ def sample : Expr :=
 
 example : wf sample = true := by decide
 example : parse (Print.expr sample) = .ok (astOf sample) := parse_print_ast sample (by decide)
+
+/-- front-door estimand with a level-2 term and a fraction under a sum: in the simple-division family -/
+def sample2 : Expr :=
+  .sum (.prod [.prob none [Var.plain 2] [Var.plain 5],
+               .sum (.frac (.prob none [{ name := 7, ivs := [⟨5, false⟩] }] [{ name := 2, ivs := [⟨5, false⟩] }])
+                           (.prod [.q [Var.plain 1] [Var.plain 3], .prob none [Var.plain 2] []])) [Var.plain 5]])
+       [Var.plain 2]
+
+example : built PyEval.exprLt sample2 = true := by decide
+example : simple sample2 = true := by decide
+example : PyEval.parseY0 PyEval.exprLt (Print.expr sample2) = .ok sample2 :=
+  parse_print_eq _ sample2 (by decide) (by decide)
 
 end C12
 end Y0
